@@ -13,7 +13,7 @@ PROPERTY = 'C16'
 LEVEL = 'exploration'
 RULE = ('federations: Hypothesis specs of 1-3 sources x 1-5 entities from a pool of 5 entity ids (so ids repeat across sources) x roles {idp, sp, aa} x endpoints over 5 bindings with '
         'indexes x key descriptors (use signing/encryption/none, 1-2 certs) x protocolSupportEnumeration {SAML2, SAML1 only, both} x entity categories (one Attribute, one Attribute per value, spread over two EntityAttributes blocks; a second entity attribute interleaved) / requested attributes x '
-        'validUntil {absent, past, future} on entity and document x signed remote roots {valid, tampered, wrong key} x entry point {load, imp dict-style, imp list-style; the store keeps being used after a refused source} x validUntil spelled with 0-9 fractional digits; all accessors queried for every (entity, role, service, binding) '
+        'validUntil {absent, past, future} on entity and document x signed remote roots {valid, tampered, wrong key} x entry point {load, imp dict-style, imp list-style; the store keeps being used after a refused source} x validUntil spelled with 0-9 fractional digits and with Z or a numeric zone offset; all accessors queried for every (entity, role, service, binding) '
         'incl. an unknown entity. config round trip: generated SP/IdP configs -> entity_descriptor -> store. '
         'Non-trivial = federation has a duplicate id, an expired item, a signed source or an entity with >= 2 roles / key uses; distinct = distinct spec.')
 ASSUMPTIONS = ['reference model = the spec the XML was rendered from (harness templates); for ids defined in several sources any single defining source is an acceptable answer',
@@ -53,18 +53,26 @@ def spec_strategy():
                                     # entry point: MetadataStore.load(...) / imp({...}) (dict style) / imp([{'class':..., 'metadata': [...]}]) (list style)
                                     'via': st.sampled_from(['load', 'load', 'imp-dict', 'imp-list']),
                                     # spelling of the validUntil instants: number of fractional-second digits
-                                    'vu_frac': st.sampled_from([0, 0, 1, 3, 6, 7, 9])})
+                                    'vu_frac': st.sampled_from([0, 0, 1, 3, 6, 7, 9]), 'vu_zone': st.sampled_from([None, None, None, '+00:00', '+02:00', '-05:00'])})
     return st.fixed_dictionaries({'sources': st.lists(source, min_size=1, max_size=3)})
 
 
 _FRAC = [0]
+_ZONE = [None]
 
 
 def when(v):
-    t = {None: None, 'past': build.ts(NOW - 3600), 'future': build.ts(NOW + 3600)}[v]
-    if t is None or not _FRAC[0]:
+    off = {None: 0, '+00:00': 0, '+02:00': 7200, '-05:00': -18000}[_ZONE[0]] if v == 'past' else 0
+    t = {None: None, 'past': build.ts(NOW - 3600 + off), 'future': build.ts(NOW + 3600 + off)}[v]
+    if t is None:
         return t
-    return t[:-1] + '.' + '1234567890'[:_FRAC[0]] + 'Z'
+    if _FRAC[0]:
+        t = t[:-1] + '.' + '1234567890'[:_FRAC[0]] + 'Z'
+    if _ZONE[0] and v == 'past':
+        # the same instant written in local time with a numeric zone offset (legal xs:dateTime).  Only instants that have passed are spelled this way: the library
+        # refuses the spelling elsewhere, and refusing a source is as good as not serving it, whereas an unexpired source would have to be served
+        t = t[:-1] + _ZONE[0]
+    return t
 
 
 def loc(eid, role, svc, path):
@@ -239,8 +247,10 @@ def run(case):
     docs = {}
     for n, src in enumerate(case['sources']):
         _FRAC[0] = src.get('vu_frac', 0)
+        _ZONE[0] = src.get('vu_zone') if src['root'] == 'entity' else None      # (a whole EntitiesDescriptor is refused for the spelling: valid entities next to the expired one would be lost)
         xml = render_source(src, n)
         _FRAC[0] = 0
+        _ZONE[0] = None
         m = model_of_source(src)
         via = src.get('via', 'load')
         try:
@@ -299,6 +309,25 @@ def run(case):
     got_keys = set(mds.keys())
     if got_keys != known:
         raise Violation('keys-differ', 'store knows %r, valid unexpired metadata declares %r' % (sorted(got_keys), sorted(known)))
+    # role listings: an entity is listed under a role iff some source that defines it declares the role (sources are searched per entity: any defining source may answer)
+    for fname, role in (('identity_providers', 'idp'), ('service_providers', 'sp'), ('attribute_authorities', 'aa')):
+        got = set(getattr(mds, fname)())
+        must = set(e for e in known if all(role in d['roles'] for d in decls(e)))
+        may = set(e for e in known if any(role in d['roles'] for d in decls(e)))
+        if not (must <= got <= may):
+            raise Violation('role-listing-differs', '%s() = %r; entities declaring that role in every defining source: %r, in some: %r' % (fname, sorted(got), sorted(must), sorted(may)))
+    # bindings(): for a declared service the store answers (what exactly is returned is checked through the service accessors below)
+    for eid in sorted(known):
+        for d in decls(eid)[:1]:
+            for role, typ in (('idp', 'idpsso_descriptor'), ('sp', 'spsso_descriptor')):
+                svc = {'idp': ('sso', 'single_sign_on_service'), 'sp': ('acs', 'assertion_consumer_service')}[role]
+                if role in d['roles'] and d['roles'][role]['eps'].get(svc[0]) and len(decls(eid)) == 1:
+                    try:
+                        b = mds.bindings(eid, typ, svc[1])
+                    except Exception as e:
+                        b = 'raised %s' % type(e).__name__
+                    if not b:
+                        raise Violation('bindings-accessor-empty', 'bindings(%s, %s, %s) = %r although the entity declares %d such endpoint(s)' % (eid, typ, svc[1], b, len(d['roles'][role]['eps'][svc[0]])))
     helpers = [('single_sign_on_service', 'idp', 'sso', None), ('single_logout_service', 'idp', 'slo', 'idpsso'), ('single_logout_service', 'sp', 'slo', 'spsso'),
                ('artifact_resolution_service', 'idp', 'ars', 'idpsso'), ('assertion_consumer_service', 'sp', 'acs', None), ('manage_name_id_service', 'sp', 'mnid', 'spsso'),
                ('attribute_service', 'aa', 'attribute_service', None)]
